@@ -265,7 +265,7 @@ class StringDataEncoding(DataEncoding):
         elif self.discrete_lookup_length:
             for discrete_lookup in self.discrete_lookup_length:
                 buflen_bits = discrete_lookup.evaluate(packet)
-                if buflen_bits:
+                if buflen_bits is not None:  # A lookup value of 0 is a valid length. None means no match
                     break
             else:
                 raise ValueError('List of discrete lookup values being used for determining length of '
